@@ -7,7 +7,7 @@
     is outside the model (the property says "up to rounding"). *)
 From Coq Require Import Reals List QArith Qreals.
 From SV Require Import Rot.RotBase Gen.RotFormulas_gen Rot.RotAlgebra Rot.RotAliasProofs Rot.RotEuler Rot.RotEulerProofs
-  Rot.RotDispatch Rot.RotDispatchProofs Rot.RotMixedProofs Gen.RotDispatch_gen Rot.RotGJ Rot.RotGJProofs Rot.RotGJTotal Rot.RotGJTotalProofs Rot.RotGJExample
+  Rot.RotDispatch Rot.RotDispatchProofs Rot.RotMixedProofs Rot.RotInplace Gen.RotDispatch_gen Rot.RotGJ Rot.RotGJProofs Rot.RotGJTotal Rot.RotGJTotalProofs Rot.RotGJExample
   Rot.RotReify Gen.RotReified_gen Rot.RotReifyProofs
   Rot.RotRound Rot.RotRoundProofs Rot.RotRoundFlocq Gen.RotRounded_gen Rot.RotRoundTied.
 Import ListNotations.
@@ -168,6 +168,15 @@ Example c04_inplace_fallback_refuted :
   inplace_ok (Triple FImatmul CAngle CMatrix false (OValue CAngle IdL e e TR)) = true /\
   inplace_ok (Triple FImatmul CFrozenAngle CMatrix false (OValue CFrozenAngle IdL e e TR)) = false.
 Proof. repeat split. Qed.
+(** The census of ALL in-place operator methods of the operand classes (`+= -= *= /= //= %= @=`; Gen/RotInplace_gen.v, read
+    from the class bodies and the expanded exec() templates on every run): for an accepted census every in-place method
+    belongs to mutable classes only (no frozen class has or inherits one, so `frozen op= x` is the pure operator), updates the
+    receiver on some path, and every path either defers (NotImplemented) or returns the receiver after storing into it. *)
+Theorem c04_inplace_census_sound : forall c, census_ok c = true -> forall m, In m c ->
+  im_mutable m = true /\ im_frozen_reach m = false /\
+  (exists p, In p (im_paths m) /\ p <> PNotImplemented) /\
+  forall p, In p (im_paths m) -> p = PNotImplemented \/ exists n, p = PSelf (S n).
+Proof. exact census_ok_sound. Qed.
 (** x @ Angle is x @ Matrix.from_angle(Angle). *)
 Theorem c04_angle_operand_is_from_angle : forall atan2 L a,
   spec atan2 L (VAng a) = spec atan2 L (VMat (from_angle_obj a)).
